@@ -41,7 +41,7 @@ def describe(tier):
         "x {no rename, first field renamed} x per field values {equal to the declared default, different, zero, empty}: H.from_dict(h.to_dict()) equals h "
         "on every field (read through the attributes and through _xobject), the dictionary survives json.dumps with xo.JEncoder, and a field with a "
         "declared default is absent from the dictionary iff its value equals that default; (a') class families {base, derived class declaring the field again "
-        "with another default, derived class inheriting the declaration} serialised in all 6 orders: each class elides exactly its own default and round-trips. (b) every reference-free type of the universe in which every "
+        "with another default, derived class inheriting the declaration} serialised in all 6 orders: each class elides exactly its own default and round-trips; then a class is defined from {'pre': Int64, **Base._xofields}: dictionaries made before still rebuild equal objects and the new class round-trips. (b) every reference-free type of the universe in which every "
         "array at any depth is one-dimensional x 3 value alphabets: T(x._to_json()) equals x.",
         bounds=dict(field_kinds=["sc", "fl", "st", "sa", "da", "hy"], json_types=len(json_types(tier))),
         assumptions=["N-D arrays are outside the property (documented as unsupported by _to_json)"],
@@ -289,6 +289,38 @@ def run_family(first, tier, res):
                     else:
                         res.outcomes["ok:family"] += 1
                         res.states += 1
+            # a class defined LATER from the base's declarations plus a field in front ({"pre": ..., **Base._xofields}, the usual way
+            # to extend a hybrid class): dictionaries made before must rebuild equal objects after, and the new class round-trips
+            res.cases += 1
+            feat = dict(kinds=[k], defaults=[lab], rename=rename, family="extended-later", order="-".join(order))
+            case = dict(part="family", first=first, order=list(order), rename=rename, who="extended-later")
+            try:
+                hb = Base(**{pyname: third, "k": 5})
+                before = read_hybrid(hb, fields)
+                d = hb.to_dict()
+                Ext = type("C19E%d_%d" % (first, n), (xo.HybridClass,), {"_xofields": {"pre": xo.Int64, **Base._xofields}, "_rename": ren})
+                res.transitions += 2
+                res.events["from_dict"] += 2
+                after = read_hybrid(Base.from_dict(d), fields)
+                he = Ext(**{pyname: other, "k": 6, "pre": 9})
+                efields = [("pre", "pre", "sc")] + fields
+                eb = read_hybrid(he, efields)
+                ea = read_hybrid(Ext.from_dict(he.to_dict()), efields)
+            except Exception as e:
+                key = ("C19.from_dict", "extended-later", rename)
+                if key not in sig:
+                    sig.add(key)
+                    res.violations.append(common.violation("C19.from_dict", "family-roundtrip-raises:" + common.exc_failure(e), dict(feat, field_kind=k, default_kind=lab, renamed=rename), case, repr(e)))
+                continue
+            res.oracles["roundtrip"] += 2
+            if not veq(before, after) or not veq(eb, ea) or not veq(eb, {"pre": 9, "f0": other, "k": 6}):
+                key = ("C19.roundtrip", "extended-later", rename)
+                if key not in sig:
+                    sig.add(key)
+                    res.violations.append(common.violation("C19.roundtrip", "rebuilt-object-differs", dict(feat, field_kind=k, default_kind=lab, renamed=rename), case,
+                                                           "base object %r -> %r after a class was defined from {'pre': Int64, **Base._xofields}; extended object given %r reads %r -> %r" % (before, after, {"pre": 9, "f0": other, "k": 6}, eb, ea)))
+            else:
+                res.outcomes["ok:family"] += 1
 
 
 def jsonify(x):
